@@ -309,6 +309,59 @@ pub fn sets(ctx: &Ctx) -> Vec<CaseSet> {
         }),
     ));
 
+    // one atom far longer than any buffer the reader may recycle, followed by more atoms
+    let (tb7, cfg7) = (tb.clone(), cfg.clone());
+    let huge_max = ctx.size(200_000, 1_500_000) as usize;
+    out.push(CaseSet::new(
+        "huge-atom-then-more-atoms",
+        ctx.size(6, 60),
+        Box::new(move |rep, rng, _| {
+            let n = match rng.below(4) {
+                0 => rng.range(65_000, 66_000),
+                1 => rng.range(130_000, 132_000),
+                _ => rng.range(66_000, huge_max),
+            };
+            let alphabet = ['a', 'b', ' ', '"', '\\', 'é', '中', '\n', 'z', '\u{7f}'];
+            let mut big = String::with_capacity(n + 8);
+            while big.len() < n {
+                big.push(*rng.pick(&alphabet));
+            }
+            let first = match rng.below(4) {
+                0 => Value::symbol(big.chars().filter(|c| c.is_alphanumeric()).collect::<String>()),
+                1 => Value::bytes(big.into_bytes()),
+                _ => Value::string(big),
+            };
+            let mut items = vec![first];
+            for _ in 0..rng.range(2, 6) {
+                items.push(gen::gen_atom(rng, &cfg7, &tb7));
+            }
+            items.push(Value::string("tail"));
+            items.push(Value::symbol("end"));
+            let v = if rng.bool() { Value::list(items) } else { Value::vector(items) };
+            rep.max("max_huge_atom_len", n as u64);
+            rep.eval();
+            let text = lexpr::to_string(&v).unwrap();
+            for (name, r) in [
+                ("from_str", lexpr::from_str(&text)),
+                ("from_slice", lexpr::from_slice(text.as_bytes())),
+                ("from_reader", lexpr::from_reader(Cursor::new(text.as_bytes()))),
+                ("datum::from_str", lexpr::datum::from_str(&text).map(|d| d.value().clone())),
+                ("from_reader(3-byte chunks)", lexpr::from_reader(ChunkReader::new(text.as_bytes(), Chunking::Random, false, rng.fork()))),
+            ] {
+                let bad = match r {
+                    Ok(got) => veq(&v, &got, rule).err().map(|d| d.chars().take(300).collect::<String>()),
+                    Err(e) => Some(e.to_string()),
+                };
+                if let Some(d) = bad {
+                    rep.violation("roundtrip", format!("C01:huge-atom:{}", name), format!("a {}-byte atom followed by {} more atoms, read by {}: {}", n, children(&v).len().saturating_sub(1), name, d), json!({"len": n, "entry": name}));
+                    return;
+                }
+            }
+            rep.distinct(hash_str(&text));
+            rep.count("ok:huge-atom");
+        }),
+    ));
+
     // wide values: hundreds of sibling compound values at small depth
     let (tb6, cfg6) = (tb.clone(), cfg.clone());
     out.push(CaseSet::new(
@@ -337,6 +390,42 @@ pub fn sets(ctx: &Ctx) -> Vec<CaseSet> {
             check_value(rep, &v, rule, rng, "wide");
         }),
     ));
+
+    // exhaustive in both tiers: every non-ASCII alphabetic scalar value as the
+    // initial of a symbol, as a subsequent, after a sign and after sign-dot
+    // (the "Unicode-alphabetic initials" of the identifier clause)
+    {
+        let all: Arc<Vec<char>> = Arc::new(gen::alpha_buckets().iter().flatten().copied().collect());
+        let blocks = (all.len() as u64 + 511) / 512;
+        out.push(CaseSet::new(
+            "every-alphabetic-scalar-in-identifiers",
+            blocks,
+            Box::new(move |rep, rng, case| {
+                let lo = (case * 512) as usize;
+                let hi = (lo + 512).min(all.len());
+                for &c in &all[lo..hi] {
+                    let forms = [format!("{}", c), format!("{}x", c), format!("x{}", c), format!("-{}", c), format!("+.{}", c), format!(".{}", c)];
+                    for (i, name) in forms.iter().enumerate() {
+                        // the first three as symbol and keyword, the peculiar forms as symbols
+                        let vs: Vec<Value> = if i < 3 { vec![Value::symbol(name.as_str()), Value::keyword(name.as_str())] } else { vec![Value::symbol(name.as_str())] };
+                        for v in vs {
+                            rep.eval();
+                            let text = lexpr::to_string(&v).unwrap();
+                            let ok = lexpr::from_str(&text).map_or(false, |g| veq(&v, &g, rule).is_ok())
+                                && lexpr::from_reader(text.as_bytes()).map_or(false, |g| veq(&v, &g, rule).is_ok())
+                                && reader::read_one(&text, Dialect::Scheme).map_or(false, |g| veq(&v, &g, FloatRule::Bits).is_ok());
+                            if ok {
+                                rep.distinct(hash_str(&text));
+                            } else {
+                                check_value(rep, &v, rule, rng, "alphabetic-scalar-identifier");
+                            }
+                        }
+                    }
+                }
+                rep.count_n("alphabetic-scalars-enumerated", (hi - lo) as u64);
+            }),
+        ));
+    }
 
     if ctx.thorough {
         // exhaustive: every Unicode scalar value as Char and as 1-char string
